@@ -336,6 +336,9 @@ func (m *Machine) visitInstr(fr *frame, instr ssa.Instruction) int {
 		}
 		fr.env[instr] = &mapV{keyT: mt.Key(), elT: mt.Elem()}
 	case *ssa.Range:
+		if mp, ok := fr.get(instr.X).(*mapV); ok {
+			m.mapRead(mp)
+		}
 		fr.env[instr] = m.rangeIter(fr.get(instr.X), instr.X.Type())
 	case *ssa.Next:
 		fr.env[instr] = fr.get(instr.Iter).(iter).next(m)
@@ -387,12 +390,16 @@ func (m *Machine) visitInstr(fr *frame, instr ssa.Instruction) int {
 			m.abort("Index on %T", x)
 		}
 	case *ssa.Lookup:
+		if mp, ok := fr.get(instr.X).(*mapV); ok {
+			m.mapRead(mp)
+		}
 		fr.env[instr] = m.lookup(instr, fr.get(instr.X), fr.get(instr.Index))
 	case *ssa.MapUpdate:
 		mp, _ := fr.get(instr.Map).(*mapV)
 		if mp == nil {
 			m.targetPanic("assignment to entry in nil map")
 		}
+		m.mapWrite(mp)
 		m.mapInsert(mp, fr.get(instr.Key), copyVal(fr.get(instr.Value)))
 	case *ssa.TypeAssert:
 		fr.env[instr] = m.typeAssert(instr, fr.get(instr.X))
@@ -822,6 +829,7 @@ func (m *Machine) callBuiltin(caller *frame, callpos token.Pos, fn *ssa.Builtin,
 	case "delete":
 		mp, _ := args[0].(*mapV)
 		if mp != nil {
+			m.mapWrite(mp)
 			m.mapDelete(mp, args[1])
 		}
 		return nil
